@@ -1,13 +1,13 @@
 (* Correspondence checker for C09: the model's optimize on the real "before" listing must give
    the real "after" listing (instructions, jump targets and span lists). *)
-From TeraV Require Import Model.Value Model.Instr Model.Optimize Proofs.OptimizeProofs.
+From TeraV Require Import Model.Value Model.Instr Model.Optimize Proofs.OptimizeProofs Proofs.OptimizeSim.
 
 Record opt_case := { c_before : chunk; c_after : chunk }.
 
 Definition model_opt (c : opt_case) : option chunk := optimize (c_before c).
 Definition check_opt (c : opt_case) : bool :=
-  (* the hypotheses of C09_optimize_structure hold for the real chunk ... *)
-  unfusedb (c_before c) && targets_in_rangeb (c_before c) &&
+  (* the hypotheses of C09_optimize_structure / C09_optimize_correct hold for the real chunk ... *)
+  unfusedb (c_before c) && targets_in_rangeb (c_before c) && iterate_forwardb (map fst (c_before c)) &&
   (* ... and the ported pass reproduces the real one *)
   match optimize (c_before c) with
   | Some o => chunk_eqb o (c_after c)
